@@ -335,7 +335,10 @@ def render_package(pkg: dict) -> dict[str, str]:
         lines += render_doc(doc, "")
         for r in pkg["inits"].get(key, []):
             lines.append(render_reexport(r))
-        files[key + "/__init__.py"] = "\n".join(lines) + ("\n" if lines else "")
+        if key + "/__init__.py" in files:  # a module with path [..., "__init__"] carries declarations of its own
+            files[key + "/__init__.py"] = "\n".join(lines) + ("\n" if lines else "") + files[key + "/__init__.py"]
+        else:
+            files[key + "/__init__.py"] = "\n".join(lines) + ("\n" if lines else "")
     for rel, src in pkg.get("extra", {}).items():
         files[rel] = src
     return files
